@@ -115,7 +115,9 @@ class C02:
                 spec["tuples"] = spec["tuples"][:3]
         return {"spec": wrap_spec(spec), "config": X.gen_config(rng), "resume_config": X.gen_config(rng), "knobs": X.gen_knobs(rng),
                 "gz": index % 3 == 2, "exhaustive": tier == "thorough" and index % 4 == 0,
-                "resume_sim_every": 7, "offset_seed": rng.randrange(1 << 30), "second_gen": rng.random() < 0.5}
+                "resume_sim_every": 7, "offset_seed": rng.randrange(1 << 30), "second_gen": rng.random() < 0.5,
+                # a graceful interruption as well: Ctrl-C while an environment produces its k-th item (fraction of its length), then a re-run
+                "ctrl_c": rng.random() if rng.random() < 0.5 else None}
 
     # ------------------------------------------------------------------
     def offsets(self, F, cfg, is_gz):
@@ -211,6 +213,7 @@ class C02:
                     self._full_counts[(r[0], r[1])] += 1
                 else:
                     self._full_counts[(r[0],)] += 1
+            self._ctrl_c(cfg, spec, tmp, is_gz, t_full, ids, full_log_text, seed, add, out)
             k = 0
             for n in offs:
                 k += 1
@@ -234,6 +237,53 @@ class C02:
         out["sample"] = {"spec": spec, "config": cfg["config"], "gz": is_gz, "log_bytes": len(F), "offsets": len(offs),
                          "exhaustive": exhaustive, "interaction_records": n_I}
         return out
+
+    def _ctrl_c(self, cfg, spec, tmp, is_gz, t_full, ids, full_log_text, seed, add, out):
+        """Interrupted 'at any moment' the graceful way: a KeyboardInterrupt is raised while an environment produces one of its items
+        (during the first read - the peek - or during an evaluation).  Experiment.run may abort or carry on; either way running the same
+        experiment again with that file must give the uninterrupted Result without evaluating or recording anything twice."""
+        import copy
+        if cfg.get("ctrl_c") is None:
+            return
+        gi = next((i for i, g in enumerate(spec["envs"]) if g["src"][0] == "tagged" or (g["src"][0] == "supervised" and g["src"][1].get("via") == "source")), None)
+        if gi is None:
+            return
+        spec2 = copy.deepcopy(spec)
+        kw = spec2["envs"][gi]["src"][1]
+        n_items = kw["n"] if spec2["envs"][gi]["src"][0] == "tagged" else len(kw["X"])
+        if n_items <= 0:
+            return
+        kw["interrupt_at"] = min(n_items - 1, int(cfg["ctrl_c"] * n_items))
+        path = os.path.join(tmp, "ctrlc.log" + (".gz" if is_gz else ""))
+        sink = ListSinkH()
+        quiet_context(sink)
+        from sim.world import reset_coba_globals
+        reset_coba_globals()
+        K.INTERRUPTS_ENABLED = False      # (materialize() reads while the experiment is being built: no Ctrl-C there)
+        try:
+            exp, _ = X.build_experiment(spec2)
+        finally:
+            K.INTERRUPTS_ENABLED = True
+        stamp(exp)
+        kwr = dict(processes=1, maxchunksperchild=0, maxtasksperchunk=0, quiet=True)
+        if "seed" in spec:
+            kwr["seed"] = spec["seed"]
+        K.take_outside_calls()
+        try:
+            exp.run(path, **kwr)
+        except BaseException as e:
+            if type(e).__name__ == "SimKill":
+                raise
+        K.take_outside_calls()
+        out["counters"]["fault.ctrl_c_while_an_environment_is_read"] = 1
+        text = "\n".join(map(str, sink.items))
+        out["counters"]["reach.ctrl_c_aborted_the_run" if "Aborted" in text else "reach.ctrl_c_did_not_abort_the_run"] = 1
+        if not os.path.exists(path):
+            return
+        with open(path, "rb") as f:
+            prefix = f.read()
+        where = "ctrl_c"
+        self._check_resume(cfg, spec, path, prefix, len(prefix), where, is_gz, t_full, ids, full_log_text, seed, False, add, out, depth=1)
 
     def _where(self, F, n, is_gz):
         """Classify the crash point (used in finding keys so that different failure classes stay distinguishable)."""
@@ -269,6 +319,44 @@ class C02:
                     f.write(blob[:cutp])
                 out["counters"]["fault.crash_during_repair_stale_partial"] = out["counters"].get("fault.crash_during_repair_stale_partial", 0) + 1
                 where = where + "+stale_partial"
+        if depth == 0 and not is_gz and n % 4 == 1:
+            # fault: the first attempt to resume cannot READ the log (EIO / ESTALE / a permission problem while opening it).  Whatever that
+            # attempt does - it may well raise - the records that are in the file must still be there afterwards
+            import coba.pipes.sources as S
+            import errno
+
+            def failing_open(file, *a, **k):
+                if str(file) == str(path):
+                    raise OSError(errno.EIO, "Input/output error (injected)")
+                return open(file, *a, **k)
+            S.open = failing_open
+            try:
+                _, _, calls0, _, exp0 = self.resume(spec, path, [1, 0, 0], seed, cfg["knobs"], False)
+            finally:
+                del S.open
+            out["counters"]["fault.io_error_while_reading_log_on_resume"] = out["counters"].get("fault.io_error_while_reading_log_on_resume", 0) + 1
+            try:
+                before = complete_records(prefix, is_gz)
+            except Exception:
+                before = []
+            restored0 = {tuple(r[1]) if len(r[1]) == 3 else (*r[1], 0) for r in before if r and r[0] == "I" and r[2].get("_packed")}
+            evaluated0 = {(c[2], c[3], c[1]) for c in calls0 if c[0] == "val.evaluate"}
+            for i, tid in enumerate(ids):
+                env, lrn, val = exp0._triples[i]
+                if tid in restored0 and (getattr(env, "_c02_env", None), getattr(lrn, "_c02_lrn", None), getattr(val, "tag", None)) in evaluated0:
+                    add(vio("log_destroyed_by_failed_resume", f"{kind} log cut at byte {n} ({where}): a resume attempt that could not read the log (EIO when opening "
+                                                              f"it) threw the recorded results away and evaluated triple {tid} again",
+                            key=f"{kind}:log_destroyed_by_failed_resume"))
+                    return
+            try:
+                with open(path, "rb") as f:
+                    after = complete_records(f.read(), is_gz)
+            except Exception:
+                after = []
+            if len(after) < len(before):
+                add(vio("log_destroyed_by_failed_resume", f"{kind} log cut at byte {n} ({where}): a resume attempt that could not read the log (EIO) left "
+                                                          f"{len(after)} of its {len(before)} complete records in the file", key=f"{kind}:log_destroyed_by_failed_resume"))
+                return
         tabs, exc, calls, log, exp = self.resume(spec, path, cfg.get("resume_config", cfg["config"]), seed ^ (n * 2654435761 & 0xFFFFFFFF), cfg["knobs"], simulated)
         out["counters"]["resumes"] = out["counters"].get("resumes", 0) + 1
         out["counters"][f"fault.crash_{where}"] = out["counters"].get(f"fault.crash_{where}", 0) + 1
